@@ -1,2 +1,65 @@
-C14_UNITS = CORE + ["FileManager/TypeNames.cc"]   # typeName<T>() is referenced by PropertyStorageT's vtable (native link)
-PROPS["C14"] = dict(jobs=[])
+# C14: property registry.  Histories of K+1 operations: K prefix operations fixed per shard (v_param 0..2), the last operation chosen by a
+# symbolic selector over a chunk (v_param 3) of the full alphabet of harness/c14_ops.h (110 operations, 8 per query).
+C14_UNITS = CORE + ["FileManager/TypeNames.cc"]   # typeName<T>() is referenced by PropertyStorageT's vtable (native replay link)
+(_K_REQUEST, _K_CREATE_SHARED, _K_CREATE_PERSISTENT, _K_CREATE_PRIVATE, _K_GET, _K_EXISTS, _K_SET_SHARED, _K_SET_PERSISTENT, _K_SET_NAME, _K_HCOPY, _K_HDROP,
+ _K_CLEAR_PROPS_V, _K_CLEAR_PROPS_C, _K_CLEAR_ALL, _K_CLEAR, _K_MESH_COPY, _K_MESH_ASSIGN, _K_MESH_DESTROY) = range(18)
+def _opc(kind, a=0, b=0): return kind * 64 + a * 8 + b
+_IV, _IC, _BV, _BC = 0, 1, 2, 3          # families: int/bool x Vertex/Cell
+_ANON, _A, _B = 0, 1, 2                  # names "", "a", "b"
+C14_CHUNKS_MAIN = list(range(11))        # alphabet blocks 0..87 (chunk 11 is padding)
+C14_CHUNKS_INV = [12, 13]                # create_shared/create_persistent with the empty name, set_name: the operations that can break the invariant
+def _c14_shards(histories, chunks, base=0):
+    out = []
+    for h in histories:
+        for c in chunks:
+            s = {0: len(h), 3: c, 4: base}
+            if len(h) >= 1: s[1] = h[0]
+            if len(h) >= 2: s[2] = h[1]
+            out.append(s)
+    return out
+# first operations: one per registry state of a storage (shared / persistent / private named / private anonymous), several families
+_P_SHARED = _opc(_K_REQUEST, _IV, _A); _P_PERS = _opc(_K_CREATE_PERSISTENT, _IV, _A); _P_PRIV = _opc(_K_CREATE_PRIVATE, _IV, _A); _P_ANON = _opc(_K_REQUEST, _IV, _ANON)
+_C14_FIRST_QUICK = [[_P_SHARED], [_P_PERS], [_P_PRIV], [_opc(_K_CREATE_PERSISTENT, _BC, _B)]]
+_C14_FIRST_THOROUGH = _C14_FIRST_QUICK + [[_P_ANON], [_opc(_K_REQUEST, _BV, _A)], [_opc(_K_CREATE_SHARED, _IC, _B)], [_opc(_K_CREATE_PRIVATE, _BC, _ANON)],
+                                           [_opc(_K_CREATE_PERSISTENT, _BV, _B)], [_opc(_K_CREATE_SHARED, _BV, _A)]]
+_C14_SECOND = [_opc(_K_HCOPY, 0), _opc(_K_HDROP, 0), _opc(_K_SET_SHARED, 0, 0), _opc(_K_SET_PERSISTENT, 0, 1), _opc(_K_CLEAR_ALL), _opc(_K_MESH_COPY),
+               _opc(_K_MESH_DESTROY), _opc(_K_REQUEST, _IV, _B), _opc(_K_CREATE_PRIVATE, _IV, _A), _opc(_K_GET, _IV, _A)]
+_C14_PAIRS_THOROUGH = [[f, s] for f in (_P_SHARED, _P_PERS, _P_PRIV) for s in _C14_SECOND if not (f == _P_PERS and s == _opc(_K_HDROP, 0))]
+_C14_BOUNDS = ("registry histories of K+1 operations on a mesh with 3 vertices and 0 cells (base 1: one tetrahedron, 4 vertices / 1 cell); the LAST operation is every one of the 110 "
+               "operations of c14_ops.h ({request, create_shared, create_persistent, create_private, get_property, property_exists} x {int,bool} x {Vertex,Cell} x {'', 'a', 'b'}; "
+               "set_shared / set_persistent (on/off), set_name (3 names), handle copy, handle drop on the handle of step 0 or 1; clear_props<Vertex>, clear_props<Cell>, clear_all_props, "
+               "clear(), mesh copy construction, mesh assignment, mesh destruction before the handles are dropped), selector-dispatched 8 per query; default values, written values "
+               "and the written/probed indices are free symbolic; the comparison with the reference registry runs after the last operation (every prefix is the last "
+               "step of a shorter history); ")
+PROPS["C14"] = dict(
+  jobs=[
+    dict(name="c14-k0", harness="C14_registry.cpp", entries=["harness_c14"], units=C14_UNITS, unwind=16, eh=True, checks="mem", object_bits=13, witness_any=True,
+         shards=_c14_shards([[]], C14_CHUNKS_MAIN + [12]), timeout=300, mem_gb=6,
+         bounds=_C14_BOUNDS + "K=0: single operations on the empty registry (chunk 12: create_shared/create_persistent with the empty name)"),
+    dict(name="c14-k1", harness="C14_registry.cpp", entries=["harness_c14"], units=C14_UNITS, unwind=16, eh=True, checks="mem", object_bits=13, witness_any=True,
+         shards={"quick": _c14_shards(_C14_FIRST_QUICK, C14_CHUNKS_MAIN) + _c14_shards([[_P_SHARED]], [13]),
+                 "thorough": _c14_shards(_C14_FIRST_THOROUGH, C14_CHUNKS_MAIN + C14_CHUNKS_INV)},
+         timeout={"quick": 300, "thorough": 600}, mem_gb=6,
+         bounds=_C14_BOUNDS + "K=1: first operation in {request int/Vertex 'a' (shared), create_persistent int/Vertex 'a', create_private int/Vertex 'a', create_persistent bool/Cell 'b'} "
+                "(thorough: + request int/Vertex '' (anonymous), request bool/Vertex 'a', create_shared int/Cell 'b', create_private bool/Cell '', create_persistent bool/Vertex 'b', "
+                "create_shared bool/Vertex 'a'); quick runs the invariant-breaking chunk (set_name) after the shared first operation only"),
+    dict(name="c14-k2", harness="C14_registry.cpp", entries=["harness_c14"], units=C14_UNITS, unwind=16, eh=True, checks="mem", object_bits=13, witness_any=True,
+         shards={"quick": _c14_shards([[_P_PERS, _opc(_K_HDROP, 0)]], C14_CHUNKS_MAIN),
+                 "thorough": _c14_shards([[_P_PERS, _opc(_K_HDROP, 0)]], C14_CHUNKS_MAIN + C14_CHUNKS_INV) + _c14_shards(_C14_PAIRS_THOROUGH, C14_CHUNKS_MAIN)},
+         timeout={"quick": 300, "thorough": 600}, mem_gb=6,
+         bounds=_C14_BOUNDS + "K=2: quick: (create_persistent int/Vertex 'a', drop its handle) = the unreferenced persistent property; thorough: first in {request 'a', create_persistent 'a', "
+                "create_private 'a'} (int/Vertex) x second in {handle copy, handle drop, set_shared off, set_persistent on, clear_all_props, mesh copy, mesh destruction, request 'b', "
+                "create_private 'a', get_property 'a'}"),
+    dict(name="c14-tet", harness="C14_registry.cpp", entries=["harness_c14"], units=C14_UNITS, unwind=26, eh=True, checks="mem", object_bits=13, witness_any=True, tiers=["thorough"],
+         shards=_c14_shards([[_opc(_K_CREATE_PERSISTENT, _IC, _A)], [_opc(_K_REQUEST, _BC, _B)]], C14_CHUNKS_MAIN, base=1), timeout=900, mem_gb=8,
+         bounds=_C14_BOUNDS + "K=1 on the one-tetrahedron base (cell properties have one element: contents and identity of cell properties are observable)"),
+  ],
+  assumptions=[
+    "heap address order = allocation order: std::less<T*> (std::set<PropertyStorageBase*> in detail::Tracker, std::set<shared_ptr<..>> of persistent properties) compares two distinct heap objects by their allocation sequence (rt.c v_plt); real allocators may order them differently (iteration order of the registry is not observable through the checked API except for which of two equally named shared properties is found, which is outside the invariant)",
+    "std::make_shared's control block is typed as {refcounts, T} (ll2c typed storage override) instead of libstdc++'s byte buffer; std::string's SSO buffer as 16 bytes",
+    "__libc_single_threaded = 1 (shared_ptr reference counts take libstdc++'s non-atomic path; atomics are lowered to plain accesses anyway)",
+    "allocation failure is out of scope; exception messages are not modelled (std::runtime_error::what() is empty)",
+    "native replays suppress UBSan's vptr report for detail::Tracked<PropertyStorageBase>'s static_cast<T*>(this) in its constructor/destructor (harness/c14_native.h, notes/C14-findings.md O1)",
+    "outside the bound: histories longer than 3 operations, more than one handle-referencing operand besides the handles of steps 0/1, names other than '', 'a', 'b', value types other than int/bool, entity kinds other than Vertex/Cell, handle moves (std::move of a PropertyPtr), operations on the copy mesh other than lookups",
+  ],
+)
